@@ -66,11 +66,55 @@ class _Scn(object):
                 'outcome': res['outcome'], 'first_draws': [[e[0], e[1], e[3]] for e in res['trace'][:8]]}
 
 
+class _Long(_Scn):
+    """long sparse chains with heavy weights: the connectedness search runs deep (hundreds of expansion steps), which is
+    where anything that accumulates along the search (products, counters, float32 range) would give out"""
+    WALL_S = 120
+
+    def generate(self, sub):
+        import random
+        import numpy as np
+        from sim.util import enc
+        rnd = random.Random(sub)
+        routine = rnd.choice(self.routines)
+        directed = routine in rewire.DIR
+        n = rnd.randint(60, 140 if self.nmax <= 12 else 220)
+        kind = rnd.choice(('f32_heavy', 'f32_heavy', 'f64_huge', 'int_wide', 'bin'))
+        W = np.zeros((n, n))
+        order = list(range(n))
+        rnd.shuffle(order)
+
+        def w():
+            return {'f32_heavy': rnd.uniform(50, 100), 'f64_huge': rnd.uniform(5e5, 2e6), 'int_wide': float(rnd.randint(1, 1000)), 'bin': 1.0}[kind]
+        for x in range(n):
+            a, b = order[x], order[(x + 1) % n]
+            W[a, b] = w()
+            if not directed:
+                W[b, a] = W[a, b]
+        for _ in range(rnd.randint(1, 4)):
+            a, b = rnd.sample(range(n), 2)
+            if W[a, b] == 0:
+                W[a, b] = w()
+                if not directed:
+                    W[b, a] = W[a, b]
+        if kind == 'f32_heavy':
+            W = W.astype(np.float32)
+        params = {'itr': 1}
+        if routine in rewire.LAT:
+            params['D'] = None
+        return {'scn': self.ID, 'routine': routine, 'W': enc(W), 'params': params, 'seed': sub, 'policy': {'name': 'fair'}, 'budget': 400000,
+                'trace': None, 'meta': {'n': n, 'family': 'long_ring_chords', 'wkind': kind, 'directed': directed}}
+
+    def shrink_candidates(self, case):
+        return iter(())
+
+
 SCENARIOS = [
     _Scn('c11.conn', ('randmio_und_connected', 'randmio_dir_connected', 'latmio_und_connected', 'latmio_dir_connected'),
          {'quick': 15000, 'thorough': 350000}, connected=True, invalid_frac=0.15),
     _Scn('c11.cost', ('latmio_und', 'latmio_dir', 'latmio_und_connected', 'latmio_dir_connected'), {'quick': 9000, 'thorough': 200000}),
     _Scn('c11.mask', ('randomize_graph_partial_und',), {'quick': 6000, 'thorough': 150000}),
+    _Long('c11.long', ('randmio_und_connected', 'randmio_und_connected', 'latmio_und_connected', 'randmio_dir_connected'), {'quick': 32, 'thorough': 1200}),
 ]
 
 RULE = ('one run = one call of a constrained rewiring routine with every draw decided by the seeded SimRNG: the four *_connected routines on '
